@@ -54,7 +54,7 @@ def rule_g1(ctx):
     op = opens[0]
     def test_expr(nd):
         t, _neg = A.strip_not(nd.ast.test)
-        return flow.copy_prop(t, fn) if isinstance(t, ast.Name) else nd.ast.test
+        return flow.copy_prop(t, fn) if isinstance(t, ast.Name) else flow.expand(nd.ast.test, fn)
     exist_tests = [nd for nd in g.nodes if nd.kind == 'test' and 'cache_dir' in A.src(test_expr(nd)) and any(
         k in A.src(test_expr(nd)) for k in ('is_dir', 'exists', 'glob', 'listdir', 'iterdir', 'scandir'))]
     reuse_tests = [nd for nd in g.nodes if nd.kind == 'test' and A.is_name(A.strip_not(nd.ast.test)[0], 'reuse')]
